@@ -147,6 +147,51 @@ func Run(seed int64, goroutines, perG int, buggyShared bool) []Event {
 		ok, err := crypto.VerifyBLSSignatureManyMessages(blsPK, magg, mm, hs)
 		return fmt.Sprint(ok, err == nil)
 	}})
+	// the same functions on OTHER inputs (fewer keys, other messages, few distinct messages among many keys and the converse): calls
+	// that run at the same moment with different arguments must not share anything
+	for v := 1; v <= 3; v++ {
+		v := v
+		idx := [][]int{nil, {0, 1}, {3, 2, 1, 0, 2}, {1, 3, 0}}[v]
+		vm := make([][]byte, len(idx))
+		vs := make([]crypto.Signature, len(idx))
+		for k, i := range idx {
+			j := []int{0, 1, k % len(msgs), 3}[v] // variants 1 and 3: one message, several keys; variant 2: as many messages as keys
+			vm[k], vs[k] = msgs[j], sigs[i][j]
+		}
+		vagg, _ := crypto.AggregateBLSSignatures(vs)
+		ops = append(ops, op{key: fmt.Sprintf("bls.VerifyManyMessages/v/%d", v), args: [][]byte{vagg}, run: func(h hash.Hasher) string {
+			hs := make([]hash.Hasher, len(idx))
+			pks := make([]crypto.PublicKey, len(idx))
+			for k, i := range idx {
+				hs[k], pks[k] = h, blsPK[i]
+			}
+			ok, err := crypto.VerifyBLSSignatureManyMessages(pks, vagg, vm, hs)
+			return fmt.Sprint(ok, err == nil)
+		}})
+		var oneSigs []crypto.Signature
+		for _, i := range idx {
+			oneSigs = append(oneSigs, sigs[i][v])
+		}
+		oagg, _ := crypto.AggregateBLSSignatures(oneSigs)
+		ops = append(ops, op{key: fmt.Sprintf("bls.VerifyOneMessage/v/%d", v), args: [][]byte{oagg, msgs[v]}, run: func(h hash.Hasher) string {
+			pks := make([]crypto.PublicKey, len(idx))
+			for k, i := range idx {
+				pks[k] = blsPK[i]
+			}
+			ok, err := crypto.VerifyBLSSignatureOneMessage(pks, oagg, msgs[v], h)
+			return fmt.Sprint(ok, err == nil)
+		}})
+		ops = append(ops, op{key: fmt.Sprintf("bls.BatchVerify/v/%d", v), args: [][]byte{oneSigs[0], msgs[v]}, run: func(h hash.Hasher) string {
+			pks := make([]crypto.PublicKey, len(idx))
+			for k, i := range idx {
+				pks[k] = blsPK[i]
+			}
+			bs := append([]crypto.Signature{}, oneSigs...)
+			bs[len(bs)-1] = oneSigs[0]
+			oks, err := crypto.BatchVerifyBLSSignaturesOneMessage(pks, bs, msgs[v], h)
+			return fmt.Sprint(oks, err == nil)
+		}})
+	}
 	batch := append([]crypto.Signature{}, col...)
 	batch[2] = sigs[0][1]
 	ops = append(ops, op{key: "bls.BatchVerify", args: [][]byte{batch[0], batch[2], msgs[1]}, run: func(h hash.Hasher) string {
@@ -299,6 +344,39 @@ func Run(seed int64, goroutines, perG int, buggyShared bool) []Event {
 		}
 		for _, o := range append(append(first, mid...), last...) {
 			volley(o)
+		}
+	}
+	// phase 1b, mixed volleys: the operations of one family (one function) on DIFFERENT arguments, all at the same moment
+	families := map[string][]op{}
+	var famOrder []string
+	for _, o := range ops {
+		f := o.key
+		if i := strings.Index(f, "/"); i > 0 {
+			f = f[:i]
+		}
+		if _, ok := families[f]; !ok {
+			famOrder = append(famOrder, f)
+		}
+		families[f] = append(families[f], o)
+	}
+	for _, f := range famOrder {
+		fam := families[f]
+		if len(fam) < 2 || !strings.HasPrefix(f, "bls.") {
+			continue
+		}
+		for round := 0; round < 3; round++ {
+			var wg sync.WaitGroup
+			start := make(chan struct{})
+			for gi := 0; gi < goroutines; gi++ {
+				wg.Add(1)
+				go func(gid int) {
+					defer wg.Done()
+					<-start
+					call(gid, fam[(gid*7+round*3+int(seed%5+5))%len(fam)], owns[gid])
+				}(gi)
+			}
+			close(start)
+			wg.Wait()
 		}
 	}
 	// phase 2, random mixes
